@@ -554,6 +554,22 @@ class LabelFlowNonNull(LabelFlow):
                 return self.block(st.body, env)
             if d is False:
                 return self.block(st.orelse, env)
+        # the fact travels through plain copies (x = y) and is lost on any other assignment to x
+        if isinstance(st, (ast.Assign, ast.AnnAssign)) and st.value is not None:
+            r = super().stmt(st, env)       # the right-hand side is evaluated with the facts that hold before the assignment
+            tgts = st.targets if isinstance(st, ast.Assign) else [st.target]
+            val = st.value
+            while isinstance(val, ast.IfExp) and self._decide(val.test) is not None:
+                val = val.body if self._decide(val.test) else val.orelse
+            for t in tgts:
+                if isinstance(t, ast.Name):
+                    known = (isinstance(val, ast.Name) and val.id in self.nonnull) or isinstance(val, ast.JoinedStr) or \
+                        (isinstance(val, ast.Constant) and val.value is not None)
+                    if known:
+                        self.nonnull.add(t.id)
+                    else:
+                        self.nonnull.discard(t.id)
+            return r
         return super().stmt(st, env)
 
     def expr(self, e, env):
@@ -601,8 +617,15 @@ def rule_mode_independence(rep: Report, repo: Repo, rule: str) -> None:
     dm = DocumentModel(repo)
     where = f"{MOD}:document"
 
+    derived: Set[str] = set(dm.out_aliases)
+
     def mentions_out(e: ast.expr) -> bool:
-        return any((isinstance(x, ast.Name) and x.id in dm.out_aliases) or is_output_dir_expr(x) for x in ast.walk(e))
+        return any((isinstance(x, ast.Name) and x.id in derived) or is_output_dir_expr(x) for x in ast.walk(e))
+    # names computed from the output directory (its absolute form, a flag "output requested", ...) carry the dependence
+    for _ in range(4):
+        for a_ in walk_no_nested(dm.fn):
+            if isinstance(a_, ast.Assign) and len(a_.targets) == 1 and isinstance(a_.targets[0], ast.Name) and mentions_out(a_.value):
+                derived.add(a_.targets[0].id)
     n = 0
     lists = (dm.dirs_var, dm.files_var)
     decisions: List[Tuple[str, list]] = []
@@ -1011,10 +1034,21 @@ def rule_match_sites(rep: Report, repo: Repo, rule: str) -> None:
     msg = "subdirectories are not matched against the exclusion spec"
     if d is not None:
         c, loop = d
-        arg = norm(resolve_locals(c.args[0], loop))
+        resolved = resolve_locals(c.args[0], loop)
+        arg = norm(resolved)
         var = norm(loop.target)
+
+        def join_parts(e):
+            if isinstance(e, ast.Call) and call_name(e) == "os.path.join":
+                out = []
+                for a_ in e.args:
+                    out.extend(join_parts(a_))
+                return out
+            return [norm(e)]
+        parts = join_parts(resolved)
         trailing = ("join(" + var + ", '')" in arg) or (var + " + os.sep" in arg) or (var + " + '/'" in arg) or \
-                   ("join(" + dm.root_var + ", " + var + ", '')" in arg)
+                   ("join(" + dm.root_var + ", " + var + ", '')" in arg) or \
+                   (len(parts) >= 3 and parts[-1] == "''" and parts[-2] == var)
         has_root = dm.root_var in arg
         removes = _guarded_removals(loop, c, dm.dirs_var, var, dm)
         ok = trailing and has_root and removes
@@ -1096,7 +1130,11 @@ def rule_match_sites(rep: Report, repo: Repo, rule: str) -> None:
     ok = False
     form = ""
     for n in walk_no_nested(mfn):
-        if isinstance(n, ast.Assign) and isinstance(n.targets[0], ast.Attribute) and n.targets[0].attr == "exclude_filters":
+        is_attr_store = isinstance(n, ast.Assign) and isinstance(n.targets[0], ast.Attribute) and n.targets[0].attr == "exclude_filters"
+        # the validated dictionary may receive the list before the Settings object is built from it
+        is_dict_store = isinstance(n, ast.Assign) and isinstance(n.targets[0], ast.Subscript) and \
+            norm(n.targets[0]).endswith(("['input']['exclude_filters']", '["input"]["exclude_filters"]'))
+        if is_attr_store or is_dict_store:
             v = resolve_locals(n.value, mfn)
             txt = norm(v)
             form = txt
